@@ -90,6 +90,8 @@ type History struct {
 	Notifs     []Notification
 	Census     simnet.Census
 	Goroutines int
+	BurstCensus     simnet.Census // one simulated second after the last request returned
+	BurstGoroutines int
 	GoBase     int
 	Fired      map[string]int
 	DiamPanics []string
@@ -98,6 +100,7 @@ type History struct {
 	SimEndNs   int64
 	BootErr    string
 	Credited   map[string]int64 // "supi|rg" -> initial + top-ups
+	FinalMem   map[string][]MemRec // in-memory records per subscriber at quiescence
 }
 
 type sessBinding struct {
@@ -203,6 +206,9 @@ func Run(sc *Scenario) *History {
 
 	if !rt.Stopped() {
 		if cfg.SettleNs > 0 {
+			time.Sleep(time.Second)
+			h.BurstCensus = w.Net.Census()
+			h.BurstGoroutines = runtime.NumGoroutine()
 			time.Sleep(time.Duration(cfg.SettleNs))
 		}
 		h.Census = w.Net.Census()
@@ -222,6 +228,13 @@ func Run(sc *Scenario) *History {
 	h.Aborted = rt.Stopped()
 	if !h.Aborted {
 		h.Final = r.acctStates()
+		h.FinalMem = map[string][]MemRec{}
+		var supis []string
+		chf_context.GetSelf().UePool.Range(func(k, v interface{}) bool { supis = append(supis, k.(string)); return true })
+		sort.Strings(supis)
+		for _, s := range supis {
+			h.FinalMem[s] = memRecords(s)
+		}
 	}
 	h.SimEndNs = rt.Now()
 	h.Msgs = w.Net.Msgs()
@@ -644,13 +657,20 @@ func relevantStacks() string {
 	n := runtime.Stack(buf, true)
 	var keep []string
 	for _, g := range strings.Split(string(buf[:n]), "\n\n") {
-		if strings.Contains(g, "github.com/free5gc/chf/internal/sbi/processor") ||
-			strings.Contains(g, "github.com/free5gc/chf/internal/abmf") ||
-			strings.Contains(g, "github.com/free5gc/chf/internal/rating") ||
-			strings.Contains(g, "github.com/free5gc/chf/pkg/") {
+		if strings.Contains(g, "github.com/free5gc/chf/internal/sbi/processor.") ||
+			strings.Contains(g, "github.com/free5gc/chf/internal/sbi.(") ||
+			strings.Contains(g, "github.com/free5gc/chf/internal/abmf.") ||
+			strings.Contains(g, "github.com/free5gc/chf/internal/rating.") ||
+			strings.Contains(g, "github.com/free5gc/chf/internal/context.") ||
+			strings.Contains(g, "github.com/free5gc/chf/pkg/abmf.handleCCR") ||
+			strings.Contains(g, "github.com/free5gc/chf/pkg/rf.handleSUR") {
 			keep = append(keep, g)
 		}
 	}
+	// the goroutine executing the request first
+	sort.SliceStable(keep, func(i, j int) bool {
+		return strings.Contains(keep[i], "internal/sbi/processor.") && !strings.Contains(keep[j], "internal/sbi/processor.")
+	})
 	s := strings.Join(keep, "\n\n")
 	if len(s) > 16000 {
 		s = s[:16000]
